@@ -44,7 +44,7 @@ impl StateMachine<'_> {
             | HunkMinus(Combined(merge_parents, InMergeConflict::No), _)
             | HunkZero(Combined(merge_parents, InMergeConflict::No), _)
             | HunkPlus(Combined(merge_parents, InMergeConflict::No), _) => {
-                handled_line = self.enter_merge_conflict(&merge_parents)
+                handled_line = self.enter_merge_conflict(&merge_parents)?
             }
             MergeConflict(merge_parents, Ours) => {
                 handled_line = self.enter_ancestral(&merge_parents)
@@ -76,9 +76,14 @@ impl StateMachine<'_> {
         Ok(handled_line)
     }
 
-    fn enter_merge_conflict(&mut self, merge_parents: &MergeParents) -> bool {
+    fn enter_merge_conflict(&mut self, merge_parents: &MergeParents) -> std::io::Result<bool> {
         use State::*;
-        if let Some(commit) = parse_merge_marker(&self.line, "++<<<<<<<") {
+        if let Some(commit) = parse_merge_marker(&self.line, "++<<<<<<<").map(str::to_string) {
+            // A hunk may start with the conflict: its header has not been written yet (that
+            // also is where syntax highlighting is set up for the hunk).
+            if let HunkHeader(_, parsed_hunk_header, line, raw_line) = &self.state.clone() {
+                self.emit_hunk_header_line(parsed_hunk_header, line, raw_line)?;
+            }
             // Removed/added lines in front of the conflict are still buffered: paint them
             // now, so that they stay in front of it.
             self.painter.paint_buffered_minus_and_plus_lines();
@@ -88,9 +93,9 @@ impl StateMachine<'_> {
             // have had an ancestor section while this one has none).
             self.painter.merge_conflict_commit_names[MergeConflictCommit::Ancestral] = None;
             self.painter.merge_conflict_commit_names[MergeConflictCommit::Theirs] = None;
-            true
+            Ok(true)
         } else {
-            false
+            Ok(false)
         }
     }
 
